@@ -331,6 +331,7 @@ Section Run.
       (if p_ws_mode p1
        then match e with HNeedData => ret tt | _ => emit (ONote "h11-contract-violated") end
        else (if event_allowed (p_lib p1) e then ret tt else emit (ONote "h11-contract-violated")) ;;
+            (if is_request_ev e && negb (cs_keep_alive (l_cs (p_lib p1))) then note "request-after-close" else ret tt) ;;
             modify (fun p => set_lib (recv (p_lib p) e) p) ;;
             p <- get ;; emit (OLib [VS "states"; v_of_h1state (our_state (p_lib p)); v_of_h1state (their_state (p_lib p))]))%M
       (fun _ p => Serial p /\ (is_request e = true -> Dead p)) Serial.
@@ -341,6 +342,9 @@ Section Run.
       2:{ eapply tri_bind with (Mid := fun _ _ => False); [apply tri_emit_V|intros ?; apply tri_pre_false; intros p []].  }
       assert (RP : recv_possible (p_lib p1) e = true) by (unfold event_allowed in RP0; apply andb_true_iff in RP0; tauto). clear RP0.
       eapply tri_bind with (Mid := fun _ p => Serial p /\ p = set_events rest p1); [apply tri_ret; auto|intros ?].
+      eapply tri_bind with (Mid := fun _ p => Serial p /\ p = set_events rest p1).
+      { destruct (_ && negb _); [apply tri_emit; [discriminate|auto]|apply tri_ret; auto]. }
+      intros ?.
       eapply tri_bind with (Mid := fun _ p => Serial p /\ (is_request e = true -> Dead p)).
       + apply tri_modify. intros p [Hp Ep]. subst p. set (p0 := set_events rest p1) in *.
         assert (EL : p_lib p0 = p_lib p1) by reflexivity. assert (W0 : p_ws_mode p0 = false) by exact W.
